@@ -36,7 +36,8 @@ OPEN_STATEMENTS = [
     '(Suzuki\'s theorem, real analysis, not in Mathlib).  Proved instead: its algebraic hypotheses (suzuki_condition[_real], '
     'suzuki_palindrome, suzuki_times_sum, lsn_sym_step_mirrored).  The harness only *tests* error ratios under step doubling',
     'exact_when_commuting is proved for an abstract list of pairwise commuting generator matrices (Mathlib matrix exponential) and the '
-    'Model leaf times; that the generators emitted for a given Hamiltonian commute is an input (numerical oracle)',
+    'Model leaf times; lsn_commuting_case shows that for diagonal hopping only diagonal generator kinds are emitted with non-zero '
+    'coefficient; that matrices of diagonal kinds commute is the Spec-level input',
     'the step emitters (lsn*, so*, lr*, controlled) are proved to be product formulas at the level of generator kinds and total '
     'coefficients (each pair / orbital once, or twice at half time, mirrored; one constant phase generator in controlled steps); that '
     'the Model generator lists are what the real step classes emit is checked operation by operation (stream step-generators: kind, '
@@ -46,7 +47,7 @@ OPEN_STATEMENTS = [
     'U n_i U^-1 = orbital number operator is the C14 conjugation oracle, and the unitary of whole circuits is a 1e-8 float comparison',
     'controlled_structure / controlled_phase are about the Model lists and leaf times (total phase exp(-i t constant)); identity on '
     'control 0 and the phase on real circuits: oracle',
-    'suzuki_power_sums gives all power sums of the leaf times in closed form (hence the multiset) and suzuki_top_power_sum_vanishes '
+    'leaf_time_closed_form gives every leaf time by index, suzuki_power_sums all power sums (hence the multiset) and suzuki_top_power_sum_vanishes '
     'the order-raising cancellation over the reals; the analytic step from these to the error bound remains open',
 ]
 ASSUMPTIONS = [
